@@ -15,8 +15,8 @@ def run(ctx):
     ctx.guarded(r, R.r_assembly_pixel)
     r = ctx.rule("R4", "pixel (i, j) is sampled at (corner.x + i, corner.y + j, slice z); tile boxes and fills cover the tile", 11)
     ctx.guarded(r, R.r_samples_pixel)
-    r = ctx.rule("R5", "the tile's box goes through the view as an interval: Transformable for Interval is the homogeneous interval transform", 3)
-    ctx.guarded(r, lambda rule: SC.r_transformable(rule, ("Interval",)))
+    r = ctx.rule("R5", "the tile's box goes through the view as an interval: Transformable for Interval is the homogeneous interval transform, and samples / normals go through its f32 / Grad siblings", 4)
+    ctx.guarded(r, lambda rule: SC.r_transformable(rule, ("Interval", "f32")))
     r = ctx.rule("R6", "sample positions follow the documented screen-to-world map, and the 2D view is widened to 4x4 without losing an entry", 7)
     ctx.guarded(r, R.r_view_convention)
     ctx.guarded(r, R.r_widen_2d)
